@@ -2457,10 +2457,10 @@ namespace xsimd
             XSIMD_INLINE B tgamma_other(const B& a, const BB& test) noexcept
             {
                 B x = select(test, B(2.), a);
-#ifndef XSIMD_NO_INFINITIES
-                auto inf_result = (a == constants::infinity<B>());
+                // gamma overflows from large_limit on: these lanes are not walked down by the loop below
+                // (the walk takes about x steps and never ends once x - 1 == x)
+                auto inf_result = (a >= stirling_kernel<B>::large_limit());
                 x = select(inf_result, B(2.), x);
-#endif
                 B z = B(1.);
                 auto test1 = (x >= B(3.));
                 while (any(test1))
@@ -2487,11 +2487,7 @@ namespace xsimd
                     test2 = (x < B(2.));
                 }
                 x = z * tgamma_kernel<B>::compute(x - B(2.));
-#ifndef XSIMD_NO_INFINITIES
-                return select(inf_result, a, x);
-#else
-                return x;
-#endif
+                return select(inf_result, constants::infinity<B>(), x);
             }
         }
 
